@@ -1,4 +1,4 @@
-//go:build verif
+//go:build verif || verifmin
 
 // C19: untrusted input never panics or leaves partial state (documented cases aside).
 // Monitor: a table of every byte-taking API; each entry is called under recover() with
